@@ -162,6 +162,35 @@ func genC04(r *fw.Rng, tier string, emit func(fw.Case)) {
 			emitSess(emit, cutRandom(r, stream, 1023))
 		}
 	}
+	// the longest legal frames: bodies of 1000..1023 bytes that are all 0x7e / 0x7d / mixed (wire length > 2050 bytes),
+	// between two short frames; reads of at most 1023 bytes with the last piece before the closing delimiter as large as
+	// possible, cut just before / just after the closing delimiter, and byte by byte
+	for _, fill := range [][]byte{{0x7e}, {0x7d}, {0x7e, 0x7d}, {0x7d, 0x7e, 0x7e}} {
+		for _, bl := range []int{1000, 1010, 1023} {
+			body := make([]byte, bl)
+			for i := range body {
+				body[i] = fill[i%len(fill)]
+			}
+			hb := frames.Build(unfragH(r), nil)
+			big := frames.Build(unfragH(r), body)
+			stream := append(append(append([]byte{}, hb...), big...), hb...)
+			endBig := len(hb) + len(big) // index just after the closing delimiter of the long frame
+			for _, tail := range []int{1, 2, 9, 40} {
+				// ... 1023, 1023, <tail bytes up to just before the delimiter>, delimiter + rest
+				var cuts []int
+				for p := len(hb); p+1023 < endBig-1-tail; p += 1023 {
+					cuts = append(cuts, p+1023)
+				}
+				cuts = append(cuts, endBig-1-tail, endBig-1)
+				emitSess(emit, cutAt(stream, cuts...))
+				emitSess(emit, cutAt(stream, append(cuts, endBig)...))
+			}
+			emitSess(emit, cutRandom(r, stream, 1023))
+			if tier == "thorough" || bl == 1023 {
+				emitSess(emit, cutRandom(r, stream, 1))
+			}
+		}
+	}
 	// exhaustive 1-cuts and 2-cuts of short streams
 	m := 6
 	lim := 60
